@@ -70,6 +70,11 @@ def iter (f : Fanout) (E : Externals) (asc : Bool) : Fanout × Out :=
   let outs := if asc then outs else outs.reverse
   (f', .list (outs.flatMap outList))
 
+/-- `transact()`: one block on every shard, entered in shard order (fanout.py:78-100) -/
+def tbegin (f : Fanout) : Fanout × Out := ((f.each (fun s => (s.tbegin, .none))).1, .none)
+def tend (f : Fanout) : Fanout × Out := ((f.each (fun s => (s.tend, .none))).1, .none)
+def traise (f : Fanout) (n : Nat) : Fanout × Out := ((f.each (fun s => (s.traise n, .none))).1, .none)
+
 def stats (f : Fanout) (enable reset : Bool) : Fanout × Out :=
   let (f', outs) := f.each (fun s => s.stats enable reset)
   let hits := outs.foldl (fun a o => match o with | .tup [.int h, _] => a + h | _ => a) (0 : Int)
@@ -77,6 +82,83 @@ def stats (f : Fanout) (enable reset : Bool) : Fanout × Out :=
   (f', .tup [.int hits, .int misses])
 
 end Fanout
+
+
+/-! ### Python `==` and ordering on values (what `count`, `remove`, the Deque comparisons and
+`Index.__eq__` evaluate).  Numbers compare by value across int/float, NaN is unequal to
+everything and unordered; text and bytes compare by code point / byte; `None` and opaque
+objects are equal to themselves only (an opaque object is identified by its serialised form:
+assumption on the values the correspondence runs use) and have no order (TypeError). -/
+
+def pyNum : PyVal → Option Num
+  | .int i => some (intNum i)
+  | .float f => if floatIsNaN f then none else some (floatNum f)
+  | _ => none
+
+def pyIsNumber : PyVal → Bool
+  | .int _ => true
+  | .float _ => true
+  | _ => false
+
+def pyEq (a b : PyVal) : Bool :=
+  match pyNum a, pyNum b with
+  | some x, some y => x == y
+  | _, _ => if pyIsNumber a || pyIsNumber b then false else a == b
+
+/-- `a < b`; `none` = TypeError -/
+def pyLt (a b : PyVal) : Option Bool :=
+  match a, b with
+  | .str x, .str y => some (lexLt x y)
+  | .bytes x, .bytes y => some (lexLt x y)
+  | a, b =>
+    if pyIsNumber a && pyIsNumber b then
+      match pyNum a, pyNum b with
+      | some x, some y => some (x.lt y)
+      | _, _ => some false
+    else none
+
+/-- `a <= b`; `none` = TypeError -/
+def pyLe (a b : PyVal) : Option Bool :=
+  match a, b with
+  | .str x, .str y => some (!lexLt y x)
+  | .bytes x, .bytes y => some (!lexLt y x)
+  | a, b =>
+    if pyIsNumber a && pyIsNumber b then
+      match pyNum a, pyNum b with
+      | some x, some y => some (x.lt y || x == y)
+      | _, _ => some false
+    else none
+
+inductive CmpOp where
+  | eq | ne | lt | gt | le | ge
+  deriving DecidableEq, Repr, Inhabited
+
+def CmpOp.onVals (op : CmpOp) (a b : PyVal) : Option Bool :=
+  match op with
+  | .eq => some (pyEq a b)
+  | .ne => some (!pyEq a b)
+  | .lt => pyLt a b
+  | .gt => pyLt b a
+  | .le => pyLe a b
+  | .ge => pyLe b a
+
+def CmpOp.onNats (op : CmpOp) (a b : Nat) : Bool :=
+  match op with
+  | .eq => a == b
+  | .ne => a != b
+  | .lt => a < b
+  | .gt => b < a
+  | .le => a ≤ b
+  | .ge => b ≤ a
+
+/-- `_make_compare` (persistent.py:19-46) after the length shortcut: the first differing pair
+decides, otherwise the lengths do -/
+def cmpSeq (op : CmpOp) (lenA lenB : Nat) : List PyVal → List PyVal → Option Bool
+  | a :: as, b :: bs => if !pyEq a b then op.onVals a b else cmpSeq op lenA lenB as bs
+  | _, _ => some (op.onNats lenA lenB)
+
+def outVals (outs : List Out) : List PyVal :=
+  outs.filterMap (fun o => match o with | .val v => some v | _ => none)
 
 /-! ### Deque (persistent.py:49-672): a Cache with policy 'none' used through push/pull/peek -/
 
@@ -201,6 +283,45 @@ def reverse (d : Deque) (E : Externals) (now : Int) : Deque × Out :=
     | _ => acc) d2
   (d3, .none)
 
+
+/-- `extend` / `+=` (left = false) and `extendleft`: one `append` per value, in order -/
+def extend (d : Deque) (E : Externals) (now : Int) (vs : List PyVal) (left : Bool) : Deque × Out :=
+  (vs.foldl (fun (acc : Deque) v => (acc.append E now v left).1) d, .none)
+
+/-- `count(value)`: walk the deque, `value == item` -/
+def countOf (d : Deque) (E : Externals) (now : Int) (v : PyVal) : Deque × Out :=
+  let (d1, o) := d.iterVals E now false
+  (d1, .int ((outVals (Fanout.outList o)).filter (pyEq v)).length)
+
+/-- does the row hold a value equal to `v`? (`_cache[key]`, then `value == item`) -/
+def rowHolds (d : Deque) (E : Externals) (now : Int) (v : PyVal) (r : Row) : Bool :=
+  match (d.cache.get E now (keyOfRow E d.cache r) false false false).2 with
+  | .val x => pyEq v x
+  | _ => false
+
+/-- `remove(value)`: delete the first item equal to `value`, else ValueError -/
+def remove (d : Deque) (E : Externals) (now : Int) (v : PyVal) : Deque × Out :=
+  match (sortedRows d.cache).find? (d.rowHolds E now v) with
+  | none => (d, .exc "ValueError")
+  | some r =>
+    let (c, _) := d.cache.delitem E now (keyOfRow E d.cache r)
+    ({ d with cache := c }, .none)
+
+/-- `deque <op> that` for a sequence `that` (persistent.py:19-46) -/
+def compare (d : Deque) (E : Externals) (now : Int) (op : CmpOp) (that : List PyVal) : Deque × Out :=
+  let n := d.cache.count.toNat
+  if n != that.length && op == .eq then (d, .bool false)
+  else if n != that.length && op == .ne then (d, .bool true)
+  else
+    let (d1, o) := d.iterVals E now false
+    match cmpSeq op n that.length (outVals (Fanout.outList o)) that with
+    | some b => (d1, .bool b)
+    | none => (d1, .exc "TypeError")
+
+/-- `copy()`, pickling and re-opening give a handle on the same directory with the same maxlen:
+the state is the directory, nothing lives in the object -/
+def rehandle (d : Deque) : Deque × Out := (d, .none)
+
 end Deque
 
 /-! ### Index (persistent.py:675-1245): a Cache with policy 'none' used as a mapping -/
@@ -274,6 +395,42 @@ def items (x : Index) (E : Externals) (now : Int) : Index × Out :=
     (c, match o with | .default => acc.2 | o => acc.2 ++ [.tup [.val k, o]])) (x.cache, [])
   ({ cache := c }, .list outs)
 
+
+/-- `update(pairs)` (MutableMapping): one assignment per pair, in order -/
+def update (x : Index) (E : Externals) (now : Int) (kvs : List (PyVal × PyVal)) : Index × Out :=
+  (kvs.foldl (fun (acc : Index) kv => (acc.setitem E now kv.1 kv.2).1) x, .none)
+
+/-- `values()`: iteration order, each value looked up -/
+def values (x : Index) (E : Externals) (now : Int) : Index × Out :=
+  let (x1, o) := x.items E now
+  (x1, .list ((Fanout.outList o).filterMap (fun t => match t with | .tup [_, v] => some v | _ => none)))
+
+def pairsOf (outs : List Out) : List (PyVal × PyVal) :=
+  outs.filterMap (fun t => match t with | .tup [.val k, .val v] => some (k, v) | _ => none)
+
+/-- `index == other` (persistent.py:1098-1129): lengths first; against an Index or OrderedDict
+pairwise in order, against any other mapping key by key -/
+def eqTo (x : Index) (E : Externals) (now : Int) (ordered : Bool) (other : List (PyVal × PyVal)) : Index × Out :=
+  if x.cache.count != (other.length : Int) then (x, .bool false)
+  else
+    let (x1, o) := x.items E now
+    let mine := pairsOf (Fanout.outList o)
+    if ordered then
+      (x1, .bool (!(mine.zip other).any (fun p => !pyEq p.1.1 p.2.1 || !pyEq p.1.2 p.2.2)))
+    else
+      (x1, .bool (mine.all (fun kv => match other.find? (fun p => pyEq kv.1 p.1) with
+        | some p => pyEq kv.2 p.2
+        | none => false)))
+
+/-- `index != other` -/
+def neTo (x : Index) (E : Externals) (now : Int) (ordered : Bool) (other : List (PyVal × PyVal)) : Index × Out :=
+  match x.eqTo E now ordered other with
+  | (x1, .bool b) => (x1, .bool (!b))
+  | r => r
+
+/-- pickling and re-opening give a handle on the same directory -/
+def rehandle (x : Index) : Index × Out := (x, .none)
+
 end Index
 
 /-! ### DjangoCache (djangocache.py): key namespacing and timeout classes over FanoutCache -/
@@ -308,16 +465,16 @@ def backendTimeout (d : Django) : Timeout → Option Int
   | .forever => none
   | .secs t => if t == 0 then some (-1) else some t
 
-def set (d : Django) (E : Externals) (now : Int) (k : Str) (v : PyVal) (t : Timeout) (version : Option Int) :
-    Django × Out :=
+def set (d : Django) (E : Externals) (now : Int) (k : Str) (v : PyVal) (t : Timeout) (version : Option Int)
+    (tag : SqlVal := .null) : Django × Out :=
   let key := d.makeKey k version
-  let (f, o) := d.fan.keyed E key (fun s => s.set E now key v (d.backendTimeout t) false .null)
+  let (f, o) := d.fan.keyed E key (fun s => s.set E now key v (d.backendTimeout t) false tag)
   ({ d with fan := f }, o)
 
-def add (d : Django) (E : Externals) (now : Int) (k : Str) (v : PyVal) (t : Timeout) (version : Option Int) :
-    Django × Out :=
+def add (d : Django) (E : Externals) (now : Int) (k : Str) (v : PyVal) (t : Timeout) (version : Option Int)
+    (tag : SqlVal := .null) : Django × Out :=
   let key := d.makeKey k version
-  let (f, o) := d.fan.keyed E key (fun s => s.add E now key v (d.backendTimeout t) false .null)
+  let (f, o) := d.fan.keyed E key (fun s => s.add E now key v (d.backendTimeout t) false tag)
   ({ d with fan := f }, o)
 
 def get (d : Django) (E : Externals) (now : Int) (k : Str) (version : Option Int) : Django × Out :=
@@ -351,8 +508,34 @@ def incr (d : Django) (E : Externals) (now : Int) (k : Str) (delta : Int) (versi
   let (f, o) := d.fan.keyed E key (fun s => s.incr E now key delta none)
   ({ d with fan := f }, match o with | .exc "KeyError" => .exc "ValueError" | o => o)
 
+/-- `decr(key, delta)` is `incr(key, -delta)` on the shard (core.py `decr`) -/
+def decr (d : Django) (E : Externals) (now : Int) (k : Str) (delta : Int) (version : Option Int) : Django × Out :=
+  d.incr E now k (-delta) version
+
+/-- `read(key, version)`: a handle on the value file, KeyError when missing -/
+def read (d : Django) (E : Externals) (now : Int) (k : Str) (version : Option Int) : Django × Out :=
+  let key := d.makeKey k version
+  let (f, o) := d.fan.keyed E key (fun s => s.get E now key true false false)
+  ({ d with fan := f }, match o with | .default => .exc "KeyError" | o => o)
+
 def clear (d : Django) : Django × Out :=
   let (f, o) := d.fan.clear
+  ({ d with fan := f }, o)
+
+def expire (d : Django) (now : Int) : Django × Out :=
+  let (f, o) := d.fan.expire now
+  ({ d with fan := f }, o)
+
+def cull (d : Django) (now : Int) : Django × Out :=
+  let (f, o) := d.fan.cull now
+  ({ d with fan := f }, o)
+
+def evict (d : Django) (tag : SqlVal) : Django × Out :=
+  let (f, o) := d.fan.evict tag
+  ({ d with fan := f }, o)
+
+def stats (d : Django) (enable reset : Bool) : Django × Out :=
+  let (f, o) := d.fan.stats enable reset
   ({ d with fan := f }, o)
 
 end Django
